@@ -250,6 +250,7 @@ func (p *c10) roundTrip(x *res, item val.Item, ctx *runner.Ctx) {
 		}
 		p.readPurity(x, adapter, cl, spec.Name, key, it, ctx)
 		p.copiesAreCopies(x, adapter, cl, spec.Name, key, it, ctx)
+		p.refusedWrites(x, adapter, cl, spec.Name, key, it, ctx)
 	}
 }
 
@@ -311,6 +312,76 @@ func (p *c10) copiesAreCopies(x *res, adapter string, cl adapt.Client, table str
 				}
 				x.viol("source-of-a-copy-changed", adapter+"/"+string(v.K), fmt.Sprintf("[%s] after UpdateItem %q (derives / changes another attribute) the attribute %s reads %s; it was written as %s", adapter, st.Update, a, got.Item[a].Canon(), v.Canon()),
 					map[string]interface{}{"adapter": adapter, "item": it, "update": st, "attribute": a})
+				return
+			}
+		}
+	}
+}
+
+// refusedWrites: updates that name an attribute the item HAS - overwrite it, change a member or element below it,
+// add to it - and that are refused as a whole because the same request removes the sort-key attribute. A refused
+// write is no write: every read path still returns the item exactly as PutItem stored it.
+func (p *c10) refusedWrites(x *res, adapter string, cl adapt.Client, table string, key, it val.Item, ctx *runner.Ctx) {
+	names := []string{}
+	for k := range it {
+		if k != "h" && k != "r" {
+			names = append(names, k)
+		}
+	}
+	sort.Strings(names)
+	// the reference is what the table returns before the refused writes (the steps before this one may have
+	// left derived attributes behind, and the SDK v2 adapter has its listed way of returning empty lists and maps)
+	pre := cl.Do(adapt.Op{Kind: adapt.OpGet, Table: table, Key: key})
+	if pre.Class != adapt.ClsOK || pre.Item == nil {
+		return
+	}
+	it = pre.Item
+	done := 0
+	for _, a := range names {
+		if done >= 3 {
+			break
+		}
+		v := it[a]
+		al := map[string]string{"#a": a}
+		upds := []adapt.Op{{Kind: adapt.OpUpdate, Table: table, Key: key, Update: "SET #a = :x REMOVE r", Names: al, Values: val.Item{":x": val.Str("overwritten by a refused update")}}}
+		switch v.K {
+		case val.KL:
+			upds = append(upds, adapt.Op{Kind: adapt.OpUpdate, Table: table, Key: key, Update: "SET #a[0] = :x REMOVE r", Names: al, Values: val.Item{":x": val.Str("element of a refused update")}},
+				adapt.Op{Kind: adapt.OpUpdate, Table: table, Key: key, Update: "SET #a = list_append(#a, :x) REMOVE r", Names: al, Values: val.Item{":x": val.List(val.Str("appended by a refused update"))}})
+		case val.KM:
+			upds = append(upds, adapt.Op{Kind: adapt.OpUpdate, Table: table, Key: key, Update: "SET #a.zzrefused = :x REMOVE r", Names: al, Values: val.Item{":x": val.Str("member of a refused update")}})
+		case val.KSS:
+			upds = append(upds, adapt.Op{Kind: adapt.OpUpdate, Table: table, Key: key, Update: "ADD #a :x REMOVE r", Names: al, Values: val.Item{":x": val.SS("zz-added-by-a-refused-update")}},
+				adapt.Op{Kind: adapt.OpUpdate, Table: table, Key: key, Update: "DELETE #a :x REMOVE r", Names: al, Values: val.Item{":x": v}})
+		case val.KN:
+			upds = append(upds, adapt.Op{Kind: adapt.OpUpdate, Table: table, Key: key, Update: "ADD #a :x REMOVE r", Names: al, Values: val.Item{":x": val.Num("1")}},
+				adapt.Op{Kind: adapt.OpUpdate, Table: table, Key: key, Update: "SET #a = #a + :x REMOVE r", Names: al, Values: val.Item{":x": val.Num("1")}})
+		}
+		done++
+		for i, u := range upds {
+			ctx.Trace("%s refused write %s", adapter, u.String())
+			o := cl.Do(u)
+			x.r.Evals++
+			if o.Class == adapt.ClsRuntime {
+				x.viol("runtime-panic", o.Site, fmt.Sprintf("[%s] %s: runtime panic at %s: %s", adapter, u.Update, o.Site, o.Msg), map[string]interface{}{"adapter": adapter, "item": it, "update": u})
+				return
+			}
+			if o.Class == adapt.ClsOK {
+				// removing a key attribute was accepted: C13's business, and the item is no longer the one written
+				x.r.Counters["key_removing_update_accepted"]++
+				return
+			}
+			x.r.Counters["refused_writes_followed_by_reads"]++
+			plain := []adapt.Op{{Kind: adapt.OpGet, Table: table, Key: key}, {Kind: adapt.OpScan, Table: table}, queryOp(table, "", keyCondEq("h", ":h"), nil, val.Item{":h": val.Str("k")}, false, rrCanon)}[(i+done)%3]
+			got := cl.Do(plain)
+			x.r.Evals++
+			back := got.Item
+			if plain.Kind != adapt.OpGet && len(got.Items) == 1 {
+				back = got.Items[0]
+			}
+			if got.Class != adapt.ClsOK || !val.ItemsEqual(back, it) {
+				x.viol("refused-write-changed-stored-values", adapter+"/"+string(v.K), fmt.Sprintf("[%s] after the refused UpdateItem %q (%s) %s returns %s", adapter, u.Update, o.Class, plain.Kind, diffAttrs(back, it)),
+					map[string]interface{}{"adapter": adapter, "item": it, "update": u, "read": plain, "returned": back})
 				return
 			}
 		}
